@@ -405,6 +405,16 @@ fn run_inner(prop: &'static str, sc: &UScenario, ctl: &Arc<Ctl>, record_only: bo
             UBOp::Close => {
                 sh.close_started.store(true, Ordering::SeqCst);
                 pool.close();
+                // once close() has returned nothing waits in the pool any more. Judged only when the other
+                // thread is itself inside close() (no get / add / return is half-way through, so every
+                // live object the pool is responsible for must be in a caller's hands)
+                if sc.a == UAOp::Close {
+                    let alive = sh.objs.lock().unwrap().iter().filter(|i| i.in_pool_care && !i.destructed).count();
+                    let in_hands = main_held.len() + b_held.len();
+                    if alive != in_hands || !pool.is_closed() {
+                        sh.viol(&["C12"], "close_returned_early", format!("close() returned but {} objects of the pool are still alive while callers hold {} (is_closed={})", alive, in_hands, pool.is_closed()));
+                    }
+                }
                 "closed".into()
             }
             UBOp::Status => format!("{:?}", pool.status()),
@@ -629,10 +639,10 @@ pub struct UChaosOut {
     pub nontrivial: bool,
 }
 
-pub fn run_uchaos(prop: &'static str, threads: usize, ops: usize, max_size: usize, with_close: bool, seed: u64) -> UChaosOut {
+pub fn run_uchaos(prop: &'static str, threads: usize, ops: usize, max_size: usize, with_close: bool, seed: u64, hammer: bool) -> UChaosOut {
     let sh = USh::new(prop);
     let pool: UPool = Pool::new(max_size);
-    let ctl = Ctl::new(CtlMode::Chaos, "", 0);
+    let ctl = Ctl::new(if hammer { CtlMode::Hammer } else { CtlMode::Chaos }, "", 0);
     let blocked = Arc::new(AtomicUsize::new(0));
     let mut handles = Vec::new();
     for t in 0..threads {
@@ -643,8 +653,8 @@ pub fn run_uchaos(prop: &'static str, threads: usize, ops: usize, max_size: usiz
             let mut held: Vec<Object<UTObj>> = Vec::new();
             let mut ext: Vec<UTObj> = Vec::new();
             let mut log: Vec<String> = Vec::new();
-            let parks = if cfg!(miri) { 3 } else { 30 };
-            let park = Duration::from_micros(if cfg!(miri) { 0 } else { 300 });
+            let parks = if cfg!(miri) || hammer { 3 } else { 30 };
+            let park = Duration::from_micros(if cfg!(miri) || hammer { 0 } else { 300 });
             let r = catch_unwind(AssertUnwindSafe(|| {
                 for _ in 0..ops {
                     match thread_rng(|r| r.below(100)) {
@@ -720,7 +730,7 @@ pub fn run_uchaos(prop: &'static str, threads: usize, ops: usize, max_size: usiz
                             }
                         }
                         93 => {
-                            if with_close && thread_rng(|r| r.chance(1, 3)) {
+                            if with_close && thread_rng(|r| r.chance(1, if hammer { 12 } else { 3 })) {
                                 sh.close_started.store(true, Ordering::SeqCst);
                                 pool.close();
                                 log.push("close".into());
